@@ -45,7 +45,10 @@ struct Walk<'a> {
 fn check_node(e: &Element<String>, r: &RNode, ancestors: &mut Vec<String>, w: &mut Walk) -> Result<(), String> {
     let own = e.formatted_name();
     // the PascalCase form keeps exactly the letters and digits of the name and starts with an upper- or uncased character
-    if fold(&own) != fold(&e.name) {
+    // compared after full case mapping in both directions (`ı` -> `I`, `ß` -> `SS`, `ǰ` -> `J` + caron, `ŉ` -> `ʼN`, final sigma),
+    // letters and digits only
+    let cfold = |s: &str| -> String { s.chars().flat_map(|c| c.to_uppercase()).flat_map(|c| c.to_lowercase()).filter(|c| c.is_alphanumeric()).collect() };
+    if cfold(&own) != cfold(&e.name) {
         return Err(format!("PascalCase form `{}` of element `{}` does not consist of the name's letters and digits", own, e.name));
     }
     if let Some(c) = own.chars().next() {
@@ -53,7 +56,7 @@ fn check_node(e: &Element<String>, r: &RNode, ancestors: &mut Vec<String>, w: &m
             return Err(format!("PascalCase form `{}` of element `{}` starts with a lowercase letter", own, e.name));
         }
     }
-    if own.chars().any(|c| !c.is_alphanumeric()) {
+    if own.chars().any(|c| !c.is_alphanumeric() && (c == '_' || !crate::props::c04::ident_continue(c))) {
         return Err(format!("PascalCase form `{}` of element `{}` contains a separator", own, e.name));
     }
     // a single word written in capitals (no separators, no lowercase letter, three or more cased letters) is not
